@@ -400,6 +400,8 @@ pub enum Cheat {
     Honest,
     /// use these a_L entries (as small integers) instead of the bit decomposition; a_R = a_L - 1
     Digits(Vec<u64>),
+    /// use these a_L entries (arbitrary scalars); a_R = a_L - 1
+    Scalars(Vec<Scalar>),
     /// decompose in this radix and use radix^i in the d vector, consistently
     Radix(u64),
 }
@@ -430,6 +432,10 @@ pub fn ref_prove<G: RefGroup>(
         Cheat::Digits(d) => {
             assert_eq!(d.len(), mn);
             a_l.extend(d.iter().map(|x| Scalar::from(*x)));
+        },
+        Cheat::Scalars(d) => {
+            assert_eq!(d.len(), mn);
+            a_l.extend(d.iter().copied());
         },
         _ => {
             for j in 0..m {
